@@ -30,15 +30,21 @@ RULE = ('Hypothesis-generated configurations: one cached layer on a synthetic WM
         'capabilities document is parsed and ~45 advertised addresses are drawn per service over all levels '
         '(first / second / last / interior column and row); each fetched tile is one evaluation.  An evaluation is '
         'non-trivial when pixels were judged and the address is off the diagonal (col != row or the flipped row '
-        'differs from the row), or its level is > 0, or the service remaps levels (global profile / sqrt2); '
-        'distinct = distinct (configuration, service, address).')
+        'differs from the row), or its level is > 0, or the service remaps levels (global profile / sqrt2), or it is a '
+        'KML overlay found by crawling; distinct = distinct (configuration, service, address URL).  Every judged tile '
+        'drawn with the cross flag is also fetched through every other service / origin convention that names the '
+        'same rectangle (located by exact-rational rectangle matching) and compared pixel by pixel.')
 ASSUMPTIONS = [
     'reference client written from TMS 1.0.0 / WMTS 1.0.0 / WMS-C / KML 2.2 conventions, exact rational arithmetic',
     'pixel oracle: rho = 1 output pixel, eps = 3 levels; a tile is rejected when > max(2, 1 %) of the judged sample pixels are rejected',
-    'only pixels farther than 1.5 px inside the configured coverage are judged (what lies outside is C10/C01 matter)',
+    'only pixels farther than 1.5 px inside the data area (grid bbox and configured coverage) are judged; tiles crossing a '
+    'coverage edge are not judged (MapProxy builds them from a clipped, rescaled upstream request); blank tiles are not compared '
+    'across services (WMS answers with its background colour)',
+    'the synthetic upstream renders a level-dependent field (anchor = nearest advertised resolution), so a tile of a wrong level is '
+    'visible on every level; an advertised TMS / WMS-C tile must overlap the BoundingBox by more than one pixel',
     'documented limitation (doc/configuration.rst, grid origin): when a y-flip moves tile edges by more than 0.05 px on some '
-    'advertised level only services whose native origin equals the grid origin are judged (TMS/KML/WMS-C/?origin=sw = south-west, '
-    'WMTS/?origin=nw = north-west)',
+    'advertised level - and for every sqrt2 grid ("resolutions that are not of factor 2") - only services whose native origin '
+    'equals the grid origin are judged (TMS/KML/WMS-C/?origin=sw = south-west, WMTS/?origin=nw = north-west)',
     'KML LatLonBox is judged only for grids whose SRS has axes parallel to latitude/longitude (EPSG:4326, spherical '
     'mercator) and when the 6-decimal degrees resolve 0.05 px; latitudes beyond the mercator limit are clamped to it',
     'the /tiles addresses are derived from the TMS / WMTS address of the same ground tile using doc/services.rst '
@@ -853,8 +859,10 @@ class ConfigRun(object):
                 if self._passes(arr, alt, size):
                     return SIG_WMTS_UNITS, ('; ScaleDenominator was computed as if one CRS unit were one metre (unit is %s m)'
                                             % float(f))
-            if self._is_sqrt2() and tile.level > 0:
-                return SIG_WMTS_SQRT2, '; sqrt2 grid, matrix %s' % tile.extra.get('matrix')
+            alt = self._wmts_sqrt2_remap(tile)
+            if alt not in (None, 'out') and self._passes(arr, alt, size):
+                return SIG_WMTS_SQRT2, ('; sqrt2 grid: the tile shows address (%s, %s) of matrix index %d instead of %d'
+                                        % (tile.col, tile.row, 2 * tile.level, tile.level))
         # generic hypotheses: mirrored row, neighbouring level
         rows = tile.extra.get('rows')
         if rows is not None and tile.row is not None:
@@ -888,6 +896,18 @@ class ConfigRun(object):
         return near(anchor[0], self.cov[0]) and near(anchor[1], self.cov[1]) and not (
             near(anchor[0], b[0]) and near(anchor[1], b[1]))
 
+    def _wmts_sqrt2_remap(self, tile):
+        """root cause test for sqrt2 grids: rectangle of the same (col, row) in the matrix with twice the index
+        ('out' if that address does not exist, None if not applicable)"""
+        if not (tile.service.startswith('wmts') and self._is_sqrt2() and tile.level and tile.level > 0):
+            return None
+        c = self.wmts[tile.service.split('-')[1]]
+        ms = c.matrix_sets[tile.extra['matrix_set']].matrices
+        j = 2 * tile.level
+        if j >= len(ms) or not (0 <= tile.col < ms[j].matrix_w and 0 <= tile.row < ms[j].matrix_h):
+            return 'out'
+        return c.tile_rect(tile.extra['matrix_set'], j, tile.col, tile.row)
+
     def _anchor_of(self, tile):
         svc = tile.service
         if svc == 'tms':
@@ -907,8 +927,9 @@ class ConfigRun(object):
         if svc == 'tms' and self._anchor_is_extent_corner(self.tms_map.origin):
             return SIG_TMS_ORIGIN, ('TMS tile inside <BoundingBox> counted from <Origin> (= layer extent corner, not the grid '
                                     'corner) is refused: %s' % problem[1])
-        if svc.startswith('wmts') and self._is_sqrt2() and tile.level > 0:
-            return SIG_WMTS_SQRT2, 'advertised WMTS tile of a sqrt2 grid is refused: %s' % problem[1]
+        if svc.startswith('wmts') and self._wmts_sqrt2_remap(tile) == 'out':
+            return SIG_WMTS_SQRT2, ('advertised WMTS tile of a sqrt2 grid is refused (address (%s, %s) does not exist in matrix '
+                                    'index %d = 2 x %d): %s' % (tile.col, tile.row, 2 * tile.level, tile.level, problem[1]))
         return 'C02/%s/advertised-address-%s' % (svc, problem[0]), 'advertised %s address answered with %s' % (svc, problem[1])
 
     # -- cross-service -----------------------------------------------------------------------------------
@@ -1010,7 +1031,7 @@ def run_case(case, stats, exclude_known=True):
 
 def search_shard(shard, nshards, seed, tier):
     st_ = core.Stats()
-    n = (288 if tier == 'quick' else 6400) // nshards
+    n = (320 if tier == 'quick' else 24000) // nshards
     reported = set()
 
     def check(case, s):
@@ -1019,7 +1040,7 @@ def search_shard(shard, nshards, seed, tier):
                 reported.add(v.signature)
                 return v
         return None
-    core.hyp_search(cases(), check, st_, max_examples=max(n, 1), seed=seed, max_signatures=6, shrink=False)
+    core.hyp_search(cases(), check, st_, max_examples=max(n, 1), seed=seed, max_signatures=4, shrink=False)
     return st_
 
 
